@@ -10,7 +10,7 @@ RULE = ("Each case draws a doer forest (<= 8 nodes quick / 14 thorough, depth <=
         "DoDoers with any tock, optional always) with a per-doer script of yields and faults "
         "(raise in enter / at recur k, KeyboardInterrupt or SystemExit in enter, return truthy/falsy/None at enter / recur k, KeyboardInterrupt inside a recur, "
         "KeyboardInterrupt out of sleep in real mode, runtime extend incl. already-present and failing enter, "
-        "runtime remove of self / siblings / completed / strangers / DoDoers, limit expiry incl. non-multiples of tock) "
+        "runtime remove of self / siblings / completed / strangers / DoDoers, limit expiry incl. non-multiples of tock, exit contexts that call remove([]) / extend([]) on their scheduler) "
         "and runs it under hio's real Doist. Non-trivial: >= 2 doers started and >= 1 fault fired while another doer "
         "was alive. Distinct: digest of the executed program + fault list.")
 COMPONENTS = dict(real=["hio.base.doing.Doist", "DoDoer", "Doer", "doify", "doize", "hio.base.tyming", "python generators"],
@@ -31,6 +31,7 @@ def feat_for(tier):
     f["enter"] = dict(ok=14, raise_=1, ret=1, kbint=1, sysexit=1)
     f["real"] = True
     f["kbint_sleep"] = True
+    f["exit_touch"] = True
     if tier == "thorough":
         f.update(max_nodes=14, max_depth=4, max_steps=8, max_roots=4)
     return f
